@@ -7,6 +7,7 @@ git merge --no-commit --no-ff $N >/tmp/merge_$N.log 2>&1
 for f in lean/Driver/Registry.lean MANIFEST.json known_findings.json harness/go.mod harness/go.sum vlib.py check docs/BUILDING.md docs/AGENT_COMMON.md evidence/C32.json checks/c32.py checks/c14.py; do
   if git status --short -- $f | grep -q "^\(UU\|AA\|U\|.U\)"; then git checkout --ours -- $f 2>/dev/null; git add $f; fi
 done
+for f in $(git status --short | grep "^\(UU\|AA\) evidence/" | awk '{print $2}'); do git checkout --ours -- $f; git add $f; done
 git status --short | grep "^\(UU\|AA\|DU\|UD\)" && { echo "UNRESOLVED CONFLICTS"; exit 1; }
 python3 -c "import vlib; vlib.gen_registry()"
 python3 tools/genmanifest.py
